@@ -1,0 +1,22 @@
+//go:build verif
+
+package mtproto
+
+// VerifYieldHook, when set, is called by every goroutine of the client that reaches one of
+// the named step boundaries (see the verifYield call sites in network.go and mtproto.go).
+// The verification harness installs a function that parks the calling goroutine until its
+// scheduler releases it. Set it before the first connection is created.
+var VerifYieldHook func(point string, id int64)
+
+func verifYield(point string, id int64) {
+	if h := VerifYieldHook; h != nil {
+		h(point, id)
+	}
+}
+
+// VerifSnapshot returns the shared client state the harness compares with its model:
+// next seq_no, server salt, keys of the response table and of the hint table.
+// Only meaningful while every client goroutine is parked.
+func (m *MTProto) VerifSnapshot() (seqNo int32, salt int64, respKeys, hintKeys []int) {
+	return m.seqNo, m.serverSalt, m.responseChannels.Keys(), m.expectedTypes.Keys()
+}
